@@ -240,6 +240,24 @@ ExtSource(d, a, v, t) ==
 \* the mirror image of the (nearest existing) tangential position exists
 ExtHasMirror(d, t) == LET t0 == Clamp(t, d.minT, d.maxT) IN -t0 >= d.minT /\ -t0 <= d.maxT
 
+(* ------------- interpolate_projdata: index correspondence (direct sinograms) ------------- *)
+\* "out_index * step + offset = in_index" along (axial position, view, tangential position) for data of the same scanner:
+\* axially by m (quarter ring spacings), in views by phi in units of pi / N (half an unmashed view step; mashing by
+\* k shifts the first view by (k - 1) units), tangentially the same positions.  The input is the extended segment
+\* (extend_segment(segment, 5, 5, 5)); with linear B-splines the value is the (tri)linear interpolation.
+PhiU(c, v) == 2 * c.mash * v + (c.mash - 1)
+\* position of output sinogram (a, v) in input index units, as << numerator, denominator >>
+InterpPosAx(ci, co, a) == << MQ(co, 0, a) - MQ(ci, 0, 0), StepQ(ci, 0) >>
+InterpPosView(ci, co, v) == << PhiU(co, v) - PhiU(ci, 0), 2 * ci.mash >>
+FloorDiv(x) == x[1] \div x[2]
+FracNum(x) == x[1] % x[2]
+\* value * (axial denominator * view denominator) of output element (a, v, t); E(a, v, t) = element of the extended input
+LinInterp2(E(_, _, _), ci, co, a, v, t) ==
+  LET xa == InterpPosAx(ci, co, a)  xv == InterpPosView(ci, co, v)
+      ia == FloorDiv(xa)  fa == FracNum(xa)  iv == FloorDiv(xv)  fv == FracNum(xv) IN
+    (xa[2] - fa) * ((xv[2] - fv) * E(ia, iv, t) + fv * E(ia, iv + 1, t))
+  + fa * ((xv[2] - fv) * E(ia + 1, iv, t) + fv * E(ia + 1, iv + 1, t))
+
 (* ------------- ScatterSimulation::downsample_scanner (integer maps) ------ *)
 \* "downsampled scanner number of rings / of detectors per ring": span 1, all ring differences of the new scanner
 \* (none if the template has a single segment), views = detectors / 2, number of tangential positions
